@@ -63,11 +63,14 @@ def _exec_statement_guarded(
     """
     outcome: list[type[BaseException] | None] = [None]
     aborted = [False]
+    # Owned by the parent, like in ``TestCaseExecutor.execute``: if the watchdog expires, the
+    # parent restores the process state and a later exit of the abandoned thread is a no-op.
+    output_suppression_context = OutputSuppressionContext()
 
     def _target() -> None:
         try:
             with (
-                OutputSuppressionContext(),
+                output_suppression_context,
                 suppress_logging(),
                 FilesystemIsolation(),
             ):
@@ -100,6 +103,10 @@ def _exec_statement_guarded(
     with suppress_logging():
         thread.start()
         thread.join(_STATEMENT_EXECUTION_TIMEOUT)
+        if thread.is_alive():
+            # Do not leave stdout/stderr (and the logging state saved on entry) to a thread
+            # that may finish at any later time.
+            output_suppression_context.restore()
     if thread.is_alive() or aborted[0]:
         # Either the watchdog timeout expired or tracing aborted the re-execution;
         # in both cases the namespace state is unknown, so detection is inconclusive.
